@@ -160,6 +160,14 @@ def judge(ctx, case, forkid):
         got = r["ok"]["preimage"]
         if got != exp.hex():
             ctx.viol("%s preimage differs from the specification: %s" % (name, diff_field(bytes.fromhex(got), exp, tx, idx, sub, flag, forkid)), {"got": got[:600], "expected": exp.hex()[:600]})
+        if forkid and "hash_inputs_cold" in r["ok"]:
+            # the public hashPrevouts accessor (also what fills the cache): zero under ANYONECANPAY, else sha256d of all outpoints
+            ctx.ev()
+            ctx.hit("hash_inputs_accessor")
+            hp = exp[4:36].hex()
+            for fld in ("hash_inputs_cold", "hash_inputs_warm"):
+                if r["ok"][fld] != hp:
+                    ctx.viol("Transaction::hash_inputs differs from the specification's hashPrevouts (%s object, flag class %s)" % (fld.split("_")[-1], cls(flag)), {"got": r["ok"][fld], "expected": hp})
         if "preimage2" in r["ok"]:
             ctx.ev()
             if r["ok"]["preimage2"] != got:
@@ -209,6 +217,13 @@ def judge(ctx, case, forkid):
                 ctx.note("%s Transaction::sign signature is not the RFC 6979 (reversed-nonce-digest) signature (informational: the statement only requires that it verifies)" % name)
         if not r["ok"]["verify"]:
             ctx.viol("%s Transaction::verify rejects the signature it just produced" % name, {})
+        if "verify_plain" in r["ok"]:
+            ctx.ev()
+            ctx.hit("verify_plain_entry_point")
+            if not r["ok"]["verify_plain"]:
+                ctx.viol("%s Transaction::_verify (plain digest) rejects the signature just produced" % name, {})
+            if r["ok"]["verify_reversed"]:
+                ctx.note("%s Transaction::_verify with reversed digest accepts (informational)" % name)
         if not r["ok"]["sig_hex_eq"]:
             ctx.viol("SighashSignature::to_hex differs from to_bytes", {})
 
